@@ -53,7 +53,8 @@ class Arm:
 
 
 EXC = {"ValueError": ValueError, "KeyError": KeyError, "RecursionError": RecursionError,
-       "KeyboardInterrupt": KeyboardInterrupt}
+       "KeyboardInterrupt": KeyboardInterrupt, "TypeError": TypeError, "AttributeError": AttributeError,
+       "IndexError": IndexError, "StopIteration": StopIteration}
 
 
 def make_plugin(arm):
